@@ -622,3 +622,30 @@ Definition classify (e : rentry) : option mkind :=
 Definition classified (e : rentry) : bool := match classify e with Some _ => true | None => false end.
 Definition unclassified_names (l : list rentry) : list string :=
   map re_name (filter (fun e => negb (classified e)) l).
+
+(* ======================================================================= *)
+(* Part 5: prime priors: densities of the original space and the formulas of nessai/priors.py *)
+(* ======================================================================= *)
+Local Open Scope R_scope.
+(* chi distribution with 2 / 3 degrees of freedom (the auxiliary radius), sine law on [0, pi], isotropic angles *)
+Definition chi2_logpdf (r : R) : R := ln r - r * r / 2.
+Definition chi3_logpdf (r : R) : R := / 2 * ln (2 / PI) + 2 * ln r - r * r / 2.
+Definition sine_logpdf (a : R) : R := ln (sin a / 2).
+Definition iso_logpdf (t : R) : R := ln (t / 2) - ln (2 * PI).   (* t = sin zenith or cos declination; azimuth uniform on 2 pi *)
+(* nessai/priors.py as coded *)
+Definition prior2d (x y k : R) : R := - ln k - (x * x + y * y) / 2.
+Definition prior2d_sine (x y : R) : R := ln (y / 2) - / 2 * ln (x * x + y * y) - (x * x + y * y) / 2.
+Definition prior3d (x y z : R) : R := - (3 / 2) * ln (2 * PI) - (x * x + y * y + z * z) / 2.
+
+(* "log p(x) - log_J" of the offering blocks, as expressions with the rounding points of a float evaluation;
+   env = inputs of the block.  Angle / ToCartesian: [angle; radius] ; AnglePair: [horizontal; vertical; radius]. *)
+Definition e_chi2 (r : expr) := Rnd (Sub (Rnd (Ln r)) (Rnd (Div (Rnd (Mul r r)) c2))).
+Definition pp_polar_uniform (r : expr) : expr := Rnd (Sub (e_chi2 r) (Rnd (Ln r))).
+Definition pp_polar_sine (ang r sc : expr) : expr :=
+  Rnd (Sub (Rnd (Add (Rnd (Ln (Rnd (Div (Rnd (Sin (Rnd (Mul ang sc)))) c2)))) (e_chi2 r))) (Rnd (Ln r))).
+Definition pp_sphere (azzen : bool) (v r : expr) : expr :=
+  let hz := if azzen then Rnd (Sin v) else Rnd (Cos v) in
+  let chi3 := Rnd (Sub (Rnd (Add (Rnd (Div (Rnd (Ln (Rnd (Div c2 (Rnd EPi))))) c2)) (Rnd (Mul c2 (Rnd (Ln r))))))
+                       (Rnd (Div (Rnd (Mul r r)) c2))) in
+  let iso := Rnd (Sub (Rnd (Ln (Rnd (Div hz c2)))) (Rnd (Ln (Rnd (Mul c2 (Rnd EPi)))))) in
+  Rnd (Sub (Rnd (Add iso chi3)) (Rnd (Add (Rnd (Mul c2 (Rnd (Ln r)))) (Rnd (Ln hz))))).
